@@ -48,7 +48,9 @@ func (c *consumption) Close() error {
 
 	c.closed = true
 	verifPoint("cclose.flagged", c)
-	c.recvQueue.Signal()
+	// 入列一个 nil 而不是仅发信号: a bare Signal is lost when the delivery goroutine
+	// has tested the flag but not yet started to wait; a queued element is not
+	c.recvQueue.Push(nil)
 	return nil
 }
 
